@@ -879,6 +879,7 @@ func (e *Exec) execLookup(x *ssa.Lookup) Val {
 	mp, mv := mapHeapNames(m)
 	ps := ArraySort(SInt, ArraySort(sortOf(m.Key()), SBool))
 	vs := ArraySort(SInt, ArraySort(sortOf(m.Key()), sortOf(m.Elem())))
+	e.guardedAccess(mp, false, "look-up")
 	present := e.vc.Define("ok", And(Neq(mr, IntLit(0)), Select(Select(e.heapGet(mp, ps), mr), k)))
 	raw := Select(Select(e.heapGet(mv, vs), mr), k)
 	val := e.vc.Define("mv", Ite(present, raw, zeroOf(m.Elem())))
@@ -913,6 +914,7 @@ func (e *Exec) execMapUpdate(x *ssa.MapUpdate) {
 	mp, mv := mapHeapNames(m)
 	ps := ArraySort(SInt, ArraySort(sortOf(m.Key()), SBool))
 	vs := ArraySort(SInt, ArraySort(sortOf(m.Key()), sortOf(m.Elem())))
+	e.guardedAccess(mp, true, "update")
 	hp, hv := e.heapGet(mp, ps), e.heapGet(mv, vs)
 	e.heapSet(mp, Store(hp, mr, e.vc.Define("mp", Store(Select(hp, mr), k, True))))
 	e.heapSet(mv, Store(hv, mr, e.vc.Define("mv", Store(Select(hv, mr), k, e.vc.Define("v", v)))))
@@ -940,6 +942,7 @@ func (e *Exec) execNext(x *ssa.Next) Val {
 	mp, mv := mapHeapNames(m)
 	ps := ArraySort(SInt, ArraySort(sortOf(m.Key()), SBool))
 	vs := ArraySort(SInt, ArraySort(sortOf(m.Key()), sortOf(m.Elem())))
+	e.guardedAccess(mp, false, "iteration")
 	e.vc.Assume(True, Implies(okb, And(Neq(mr, IntLit(0)), Select(Select(e.heapGet(mp, ps), mr), k))))
 	val := e.vc.Define("mv", Select(Select(e.heapGet(mv, vs), mr), k))
 	if hasInv(m.Elem()) {
